@@ -7,6 +7,8 @@ means `rowNumber = k`; a row boundary is one `ctlStep`.
 -/
 import Wheatley.Lemmas.Ctl
 import Wheatley.Lemmas.Cli
+import Wheatley.Lemmas.Handlers
+import Wheatley.Lemmas.BotInv
 namespace Wheatley.C06
 
 /-- The stroke of row `k`: `true` = handstroke. -/
@@ -193,5 +195,286 @@ theorem cli_up_down_in (c : Parse.Chars) (os : List Cli.Opt) (u : Option (List C
     (h : Cli.consoleMain c os u = .built cfg) :
     cfg.udi = (decide (Cli.Opt.udi ∈ os) || decide (Cli.Opt.handbell ∈ os)) :=
   (Cli.main_built c os u cfg h).1
+
+/-! ### Only the opening row until Go - for the whole run -/
+
+section UntilGo
+variable {K : Type} [Num K]
+
+/-- Wheatley is on the opening row, no start is armed, and up-down-in is off. -/
+def Opening (b : Bot) : Prop := b.ringingOpening = true ∧ b.roundsLeft = none ∧ b.upDownIn = false
+
+/-- Events that cannot start the method: anything but the call "Go" and the settings channel (which could switch
+up-down-in on). -/
+def NoStart : Ev → Prop
+  | .msg (.call c) => c ≠ Generated.call_GO
+  | .msg (.setting _) => False
+  | _ => True
+
+theorem snrFinish_opening_fields (b : Bot) (o : List Out) :
+    (Bot.snrFinish b o).1.ringingOpening = b.ringingOpening ∧ (Bot.snrFinish b o).1.roundsLeft = b.roundsLeft ∧
+    (Bot.snrFinish b o).1.upDownIn = b.upDownIn := by
+  have hc := snrFinish_ctl b o
+  have hu : (Bot.snrFinish b o).1.upDownIn = b.upDownIn := by
+    unfold Bot.snrFinish
+    split
+    · rfl
+    · have hg : (b.generateNextRow).1.upDownIn = b.upDownIn := by
+        unfold Bot.generateNextRow
+        split
+        · rfl
+        · split
+          · rfl
+          · split <;> rfl
+      rcases hq : b.generateNextRow with ⟨b3, o9⟩
+      rw [hq] at hg
+      simp only [] at hg ⊢
+      split <;> exact hg
+  have h1 : (Bot.snrFinish b o).1.ctl.ringingOpening = b.ctl.ringingOpening := by rw [hc]
+  have h2 : (Bot.snrFinish b o).1.ctl.roundsLeft = b.ctl.roundsLeft := by rw [hc]
+  exact ⟨h1, h2, hu⟩
+
+/-- A row boundary with no start armed leaves Wheatley on the opening row. -/
+theorem startNextRow_opening (b : Bot) (f : Bool) (h : Opening b) : Opening (b.startNextRow f).1 := by
+  obtain ⟨h1, h2, h3⟩ := h
+  have hne : startsNow b.ctl = false := by simp [startsNow, Bot.ctl, h2]
+  have hstep : ctlStep b.ctl (b.ctlIn f) = .ok (ctlNext b.ctl (b.ctlIn f)) false := by
+    simp [ctlStep, assertFails, hne]
+  unfold Bot.startNextRow
+  rw [hstep]
+  simp only [Bool.false_and, Bool.false_eq_true, if_false]
+  obtain ⟨f1, f2, f3⟩ := snrFinish_opening_fields (b.snrPrep.withCtl (ctlNext b.ctl (b.ctlIn f))) []
+  refine ⟨?_, ?_, ?_⟩
+  · rw [f1]
+    show (ctlNext b.ctl (b.ctlIn f)).ringingOpening = true
+    simp only [ctlNext, hne, Bool.false_eq_true, if_false]
+    exact h1
+  · rw [f2]
+    show (ctlNext b.ctl (b.ctlIn f)).roundsLeft = none
+    simp only [ctlNext, hne, Bool.false_eq_true, if_false, Bot.ctl, h2]
+    try (split <;> rfl)
+  · rw [f3]
+    show b.snrPrep.upDownIn = false
+    unfold Bot.snrPrep
+    split <;> exact h3
+
+theorem lookTo_opening (b : Bot) (h : b.upDownIn = false) (ho : Opening b) : Opening b.lookTo.1 := by
+  unfold Bot.lookTo
+  split
+  · exact ho
+  · apply startNextRow_opening
+    exact ⟨rfl, by simp [Bot.armLookTo, h], h⟩
+
+theorem tickEnd_opening (b : Bot) (bell : Nat) (uc : Bool) (h : Opening b) : Opening (b.tickEnd bell uc).1 := by
+  unfold Bot.tickEnd
+  simp only []
+  split
+  · exact startNextRow_opening _ false h
+  · exact h
+
+theorem onMsg_opening (b : Bot) (m : Msg) (hq : NoStart (.msg m)) (h : Opening b) : Opening (b.onMsg m).1 := by
+  obtain ⟨h1, h2, h3⟩ := h
+  have keep : ∀ b' : Bot, b'.ringingOpening = b.ringingOpening → b'.roundsLeft = b.roundsLeft →
+      b'.upDownIn = b.upDownIn → Opening b' := by
+    intro b' e1 e2 e3
+    exact ⟨e1.trans h1, e2.trans h2, e3.trans h3⟩
+  have hsize : ∀ x : Bot, Opening x → Opening (x.onSizeChange).1 := by
+    intro x hx
+    unfold Bot.onSizeChange
+    split
+    · exact hx
+    · exact hx
+  unfold Bot.onMsg
+  simp only []
+  cases m with
+  | bellRung st who => simp only []; split <;> (try split) <;> exact keep _ rfl rfl rfl
+  | globalState st => exact hsize _ (keep _ rfl rfl rfl)
+  | sizeChange n =>
+    simp only []
+    split
+    · exact hsize _ (keep _ rfl rfl rfl)
+    · exact keep _ rfl rfl rfl
+  | call c =>
+    have hgo : (c == Generated.call_GO) = false := by
+      have : c ≠ Generated.call_GO := hq
+      simpa using this
+    simp only [Bot.onCall, hgo, Bool.false_eq_true, if_false]
+    split
+    · unfold Bot.onLookTo
+      split
+      · exact lookTo_opening _ h3 (keep _ rfl rfl rfl)
+      · exact keep _ rfl rfl rfl
+    · repeat' split
+      all_goals first | exact keep _ rfl rfl rfl | exact ⟨rfl, h2, h3⟩
+  | setting kvs => exact absurd hq (by simp [NoStart])
+  | rowGen g =>
+    simp only []
+    split
+    · split <;> exact keep _ rfl rfl rfl
+    · exact keep _ rfl rfl rfl
+  | stopTouch => simp only []; split <;> exact keep _ rfl rfl rfl
+  | userEntered _ _ => exact keep _ rfl rfl rfl
+  | userList _ => exact keep _ rfl rfl rfl
+  | assign _ _ => exact keep _ rfl rfl rfl
+  | userLeft _ => exact keep _ rfl rfl rfl
+
+theorem finishTick_opening (wt : K → K) (w : World K) (bell : Nat) (uc : Bool) (h : Opening w.bot) :
+    Opening (w.finishTick wt bell uc).1.bot := by
+  unfold World.finishTick
+  simp only []
+  have hb := (foldl_applyOut_bot_crashed wt w.now (w.bot.tickEnd bell uc).2
+    ({ w with bot := (w.bot.tickEnd bell uc).1 } : World K)).1
+  split
+  · dsimp only; rw [hb]; exact tickEnd_opening w.bot bell uc h
+  · dsimp only; rw [hb]; exact tickEnd_opening w.bot bell uc h
+
+theorem afterInner_opening (wt : K → K) (w : World K) (bell : Nat) (uc hand : Bool) (d : K) (js : Bool)
+    (h : Opening w.bot) : Opening (w.afterInner wt bell uc hand d js).1.bot := by
+  unfold World.afterInner
+  split
+  · split
+    · simp only []
+      split
+      · exact finishTick_opening wt _ bell uc h
+      · exact h
+    · exact finishTick_opening wt _ bell uc h
+  · exact finishTick_opening wt w bell uc h
+
+theorem mainStep_opening (wt : K → K) (w : World K) (h : Opening w.bot) : Opening (w.mainStep wt).1.bot := by
+  unfold World.mainStep
+  split
+  · exact h
+  · split
+    · split
+      · split
+        · simp only []
+          have hl := lookTo_opening w.bot h.2.2 h
+          split
+          · dsimp only; rw [(foldl_applyOut_bot_crashed wt _ _ _).1]; exact hl
+          · dsimp only; rw [(foldl_applyOut_bot_crashed wt _ _ _).1]; exact hl
+        · exact h
+      · exact h
+    · exact h
+  · exact h
+  · split
+    · exact h
+    · rw [(foldl_applyOut_bot_crashed wt _ _ _).1]; exact h
+  · split <;> exact h
+  · split
+    · split
+      · exact h
+      · dsimp only
+        have : ∀ bell uc, (w.beginWait bell uc w.bot.hand).1.bot = w.bot := by
+          intro bell uc
+          unfold World.beginWait
+          split
+          · rfl
+          · simp only []
+            split <;> (split <;> rfl)
+        rw [this]; exact h
+    · rw [(foldl_applyOut_bot_crashed wt _ _ _).1]; exact h
+  · split
+    · exact h
+    · exact afterInner_opening wt w _ _ _ _ _ h
+  · apply afterInner_opening
+    split <;> exact h
+  · exact afterInner_opening wt w _ _ _ _ _ h
+  · exact h
+
+theorem deliver_opening (wt : K → K) (w : World K) (e : Ev) (hq : NoStart e) (h : Opening w.bot) :
+    Opening (World.deliver wt w e).bot := by
+  cases e with
+  | resume =>
+    unfold World.deliver
+    simp only []
+    split
+    · rename_i s _
+      unfold World.lookToResume World.lookToRest
+      simp only []
+      have hin : (World.lookToInner ({ w with suspended := none } : World K) s).bot = w.bot := by
+        unfold World.lookToInner
+        split
+        · exact (withReg_pc_obs ({ w with suspended := none } : World K) _).2.2
+        · rfl
+      generalize World.lookToInner ({ w with suspended := none } : World K) s = wi at hin
+      have hO : Opening (wi.bot.armLookTo.startNextRow true).1 := by
+        apply startNextRow_opening
+        have hu : wi.bot.upDownIn = false := by rw [hin]; exact h.2.2
+        exact ⟨rfl, by simp [Bot.armLookTo, hu], hu⟩
+      split
+      · dsimp only; rw [(foldl_applyOut_bot_crashed wt _ _ _).1]; exact hO
+      · rw [(foldl_applyOut_bot_crashed wt _ _ _).1]; exact hO
+    · exact h
+  | msg m =>
+    unfold World.deliver
+    simp only []
+    split
+    · unfold World.lookToBegin; exact h
+    · unfold World.deliverMsg
+      simp only []
+      have hb := onMsg_opening w.bot m hq h
+      split
+      · dsimp only; rw [(foldl_applyOut_bot_crashed wt _ _ _).1]; exact hb
+      · rw [(foldl_applyOut_bot_crashed wt _ _ _).1]; exact hb
+
+theorem sleep_go_opening (wt : K → K) (limit : K) :
+    ∀ (events : List (K × Ev)) (w : World K), (∀ ev ∈ events, NoStart ev.2) → Opening w.bot →
+      Opening (World.sleep.go wt limit w events).1.bot ∧ (∀ ev ∈ (World.sleep.go wt limit w events).2, NoStart ev.2) := by
+  intro events
+  induction events with
+  | nil => intro w _ h; exact ⟨h, by intro ev hev; cases hev⟩
+  | cons ev rest ih =>
+    intro w hq h
+    obtain ⟨t, m⟩ := ev
+    unfold World.sleep.go
+    split
+    · apply ih _ (fun ev' h' => hq ev' (by simp [h']))
+      apply deliver_opening wt _ m (hq (t, m) (by simp))
+      split
+      · exact h
+      · exact h
+    · exact ⟨h, hq⟩
+
+theorem sleep_opening (wt : K → K) (endTime : K) (w : World K) (d : K) (events : List (K × Ev))
+    (hq : ∀ ev ∈ events, NoStart ev.2) (h : Opening w.bot) :
+    Opening (World.sleep wt endTime w d events).1.bot ∧
+    (∀ ev ∈ (World.sleep wt endTime w d events).2.1, NoStart ev.2) := by
+  unfold World.sleep
+  simp only []
+  split
+  · exact sleep_go_opening wt endTime events w hq h
+  · obtain ⟨h1, h2⟩ := sleep_go_opening wt (w.now + d) events w hq h
+    exact ⟨h1, h2⟩
+
+/-- **Only the opening row until Go, however long, whatever else arrives**: up-down-in is off and no start is
+armed.  As long as nobody calls Go (and nobody touches the settings), every row boundary of every touch - Look To
+may be called again and again, Bobs, That's all, Rounds, strikes, size changes may arrive - leaves Wheatley on the
+opening row: in every state `World.run` reaches, for any fuel. -/
+theorem opening_row_until_go (wt : K → K) (endTime : K) :
+    ∀ (fuel : Nat) (w : World K) (events : List (K × Ev)), Opening w.bot → (∀ ev ∈ events, NoStart ev.2) →
+      Opening (World.run wt endTime fuel w events).1.bot := by
+  intro fuel
+  induction fuel with
+  | zero => intro w events h _; exact h
+  | succ fuel ih =>
+    intro w events h hq
+    have hm := mainStep_opening wt w h
+    unfold World.run
+    split
+    · rename_i w1 heq; rw [heq] at hm; exact hm
+    · rename_i w1 heq; rw [heq] at hm; exact ih w1 events hm hq
+    · rename_i w1 d heq
+      rw [heq] at hm
+      obtain ⟨hsl, hsq⟩ := sleep_opening wt endTime w1 d events hq hm
+      simp only []
+      split
+      · exact hsl
+      · exact ih _ _ hsl hsq
+
+/-- … and on the opening row, the row generated at a boundary *is* the opening row. -/
+theorem opening_row_is_rung (b : Bot) (h : Opening b) : (b.generateNextRow).1.row = b.openingRow :=
+  (generateNextRow_row b).1 h.1
+
+end UntilGo
 
 end Wheatley.C06
